@@ -296,6 +296,8 @@ fn history_worker(h: &History, with_phys: bool, hist_no: usize, tx: &std::sync::
     let mut snap = sut.mem.verif_snapshot();
     snap.sort_by(|a, b| a.0.cmp(&b.0));
     let state: Vec<Value> = snap.iter().filter(|(_, ts, _, _, ttl, _)| *ttl == 0 || ts + (*ttl as u64) > now)
-        .map(|(k, ts, _cas, f, ttl, v)| json!({"k": hex(k), "v": hex(v), "f": f.to_string(), "dl": if *ttl == 0 { 0 } else { ts + *ttl as u64 }})).collect();
+        // (the CAS too: the two runs of a pair send the same requests with literal arguments, and whether a response is sent
+        // does not move the CAS counter - "CAS relations" of C19)
+        .map(|(k, ts, cas, f, ttl, v)| json!({"k": hex(k), "v": hex(v), "f": f.to_string(), "cas": cas.to_string(), "dl": if *ttl == 0 { 0 } else { ts + *ttl as u64 }})).collect();
     json!(state)
 }
